@@ -37,6 +37,7 @@ def run(chk):
                          "down_red the delayed wave on both reduction branches")
     chk.rule("R-SE-ROWS", "no operation mixes rows of a travel-time batch: every reducing/cumulative call on a 2-D travel-time array "
                           "works along the time axis (axis 1 / -1)")
+    chk.rule("R-SHIFT-GUARD", "in the array-shifting helpers a slice with a negated upper bound x[:-k] is dominated by the guard k > 0")
     chk.rule("R-JOIN", "join_values_w_shifts: 'add' -> a0 + a1, 'sub' -> a0 - a1, a0 the record zero-padded by max(shifts), a1 the "
                        "shifted copies; join_sig_w_time_shift converts times to integer shifts with / dt and forwards")
 
@@ -153,6 +154,18 @@ def run(chk):
                    any(k.arg == "dtype" and ast.unparse(k.value) == "int" for k in sh[0].value.keywords), derived=p.canon(), loc=fs.loc(sh[0]))
     else:
         chk.ob("R-JOIN", cs, "one call of join_values_w_shifts", False, derived="%d" % len(calls), loc=fs.loc())
+    # slices x[:-k] in the shifting helpers must be guarded by k > 0 (x[:-0] is empty)
+    for q, build in ((TS + "put_array_in_2d_array", lambda I, st, fi: dict(values=rec_array("values"), shifts=AV(
+            kind=K_ARRAY, dtype="int", shape=(LinExpr(3),), origin=frozenset(["p:shifts"]), tags=frozenset(["p:shifts"])), clip=AV(kind=K_STR))),
+                     ("eqsig.surface.trim_to_length", lambda I, st, fi: dict(values=rec_array("values", shape=(LinExpr(3), LinExpr("n"))),
+                                                                             npts=int_scalar("npts", "n"), surf2depth_travel_times=tt(),
+                                                                             dt=pos_scalar("dt", DT), trim=unknown_bool("trim"), start=unknown_bool("start")))):
+        r = analyse(chk, q, build)
+        hz = [e for e in r.I.events if e.kind == "neg-zero-slice"]
+        c = "%s:%s" % (r.fi.module.relpath, r.fi.name)
+        chk.ob("R-SHIFT-GUARD", c, "every slice x[:-k] is reached only with k > 0 (x[:-0] would select nothing)", not hz,
+               derived="; ".join("%s `%s`" % (e.loc, e.stmt) for e in hz[:3]) or "no unguarded negative upper bound", loc=hz[0].loc if hz else r.fi.loc(),
+               stmt=hz[0].stmt if hz else None)
     chk.floor("R-SE-TYPE", 100)
     chk.floor("R-SE-SIGN", 10)
     chk.floor("R-SE-ROWS", 16)
